@@ -92,7 +92,9 @@ pub fn probe_structures() -> i32 {
                     check!("C05", enc_structure_data(c, p.clone(), &aad), structure(name, &[slot, &aad]), format!("enc_structure_data {} {}", name, what));
                     slot!(enc_structure_data(c, p.clone(), &aad), 1, slot, format!("enc_structure_data {} {}", name, what));
                 }
-                // typed wrappers and closures (embedded + detached, create + verify, fallible + infallible)
+                // typed wrappers and closures (embedded + detached, create + verify, fallible + infallible); each family runs only
+                // for the properties it concerns, so that a panic inside one is not reported for another
+                if relevant("C03,C06,C02,C01") {
                 let s1 = CoseSign1 { protected: p.clone(), payload: Some(payload.clone()), ..Default::default() };
                 check!("C03", s1.tbs_data(&aad), structure("Signature1", &[slot, &aad, &payload]), format!("CoseSign1::tbs_data {}", what));
                 slot!(s1.tbs_data(&aad), 1, slot, format!("CoseSign1::tbs_data {}", what));
@@ -118,6 +120,9 @@ pub fn probe_structures() -> i32 {
                 slot!(seen.clone(), 1, slot, format!("CoseSign::verify_detached_signature {}", what));
                 slot!(seen.clone(), 2, &prots[sp].1, format!("CoseSign::verify_detached_signature {}", what));
                 }
+                }
+                if relevant("C04,C06,C02,C01") {
+                let mut seen: Vec<u8> = vec![];
                 let m0 = CoseMac0 { protected: p.clone(), payload: Some(payload.clone()), ..Default::default() };
                 let _ = m0.verify_tag(&aad, |_t, d| -> Result<(), ()> { seen = d.to_vec(); Ok(()) });
                 check!("C04,C06", seen.clone(), structure("MAC0", &[slot, &aad, &payload]), format!("CoseMac0::verify_tag {}", what));
@@ -126,6 +131,9 @@ pub fn probe_structures() -> i32 {
                 let _ = m.verify_tag(&aad, |_t, d| -> Result<(), ()> { seen = d.to_vec(); Ok(()) });
                 check!("C04,C06", seen.clone(), structure("MAC", &[slot, &aad, &payload]), format!("CoseMac::verify_tag {}", what));
                 slot!(seen.clone(), 1, slot, format!("CoseMac::verify_tag {}", what));
+                }
+                if relevant("C05,C06,C02,C01") {
+                let mut seen: Vec<u8> = vec![];
                 let e0 = CoseEncrypt0 { protected: p.clone(), ciphertext: Some(vec![1]), ..Default::default() };
                 let _ = e0.decrypt(&aad, |_c, d| -> Result<Vec<u8>, ()> { seen = d.to_vec(); Ok(vec![]) });
                 check!("C05,C06", seen.clone(), structure("Encrypt0", &[slot, &aad]), format!("CoseEncrypt0::decrypt {}", what));
@@ -138,6 +146,7 @@ pub fn probe_structures() -> i32 {
                 let _ = r.decrypt(EncryptionContext::MacRecipient, &aad, |_c, d| -> Result<Vec<u8>, ()> { seen = d.to_vec(); Ok(vec![]) });
                 check!("C05,C06", seen.clone(), structure("Mac_Recipient", &[slot, &aad]), format!("CoseRecipient::decrypt {}", what));
                 slot!(seen.clone(), 1, slot, format!("CoseRecipient::decrypt {}", what));
+                }
             }
         }
     }
@@ -147,6 +156,7 @@ pub fn probe_structures() -> i32 {
         let payload = bytes(la / 2 + 5, 4);
         let hdr = HeaderBuilder::new().algorithm(iana::Algorithm::ES256).key_id(vec![9, 9]).build();
         let slot = hdr.clone().to_vec().unwrap();
+        if relevant("C03,C06,C02,C01") {
         let mut created: Vec<Vec<u8>> = vec![];
         let s1 = CoseSign1Builder::new().protected(hdr.clone()).payload(payload.clone()).create_signature(&aad, |d| { created.push(d.to_vec()); vec![7; 4] }).build();
         let s1 = CoseSign1::from_slice(&s1.to_vec().unwrap()).unwrap();
@@ -179,17 +189,26 @@ pub fn probe_structures() -> i32 {
             let _ = b.verify_signature(i, &aad, |_s, d| -> Result<(), ()> { verified = d.to_vec(); Ok(()) });
             check!("C06", verified.clone(), c3[i].clone(), format!("Sign signer {} create/verify aad_len={}", i, la));
         }
+        }
+        if relevant("C04,C06,C02,C01") {
+        let mut verified: Vec<u8> = vec![];
         let mut c4: Vec<u8> = vec![];
         let m0 = CoseMac0Builder::new().protected(hdr.clone()).payload(payload.clone()).try_create_tag(&aad, |d| -> Result<Vec<u8>, ()> { c4 = d.to_vec(); Ok(vec![3]) }).unwrap().build();
         let m0 = CoseMac0::from_slice(&m0.to_vec().unwrap()).unwrap();
         let _ = m0.verify_tag(&aad, |_t, d| -> Result<(), ()> { verified = d.to_vec(); Ok(()) });
         check!("C06", verified.clone(), c4.clone(), format!("Mac0 create/verify aad_len={}", la));
+        }
+        if relevant("C05,C06,C02,C01") {
+        let mut verified: Vec<u8> = vec![];
         let mut c5: Vec<u8> = vec![];
         let e0 = CoseEncrypt0Builder::new().protected(hdr.clone()).create_ciphertext(&payload, &aad, |_pt, d| { c5 = d.to_vec(); vec![4] }).build();
         let e0 = CoseEncrypt0::from_slice(&e0.to_vec().unwrap()).unwrap();
         let _ = e0.decrypt(&aad, |_c, d| -> Result<Vec<u8>, ()> { verified = d.to_vec(); Ok(vec![]) });
         check!("C06", verified.clone(), c5.clone(), format!("Encrypt0 create/decrypt aad_len={}", la));
         check!("C05,C06", c5.clone(), structure("Encrypt0", &[&slot, &aad]), format!("Encrypt0 create aad_len={}", la));
+        }
+        if relevant("C05,C06,C02,C01") {
+        
         // every remaining creating helper, fallible and infallible: what the caller's function is handed
         let mut got: Vec<u8> = vec![];
         let _ = CoseEncrypt0Builder::new().protected(hdr.clone()).try_create_ciphertext(&payload, &aad, |_pt, d| -> Result<Vec<u8>, ()> { got = d.to_vec(); Ok(vec![4]) });
@@ -204,18 +223,25 @@ pub fn probe_structures() -> i32 {
             let _ = CoseRecipientBuilder::new().protected(hdr.clone()).try_create_ciphertext(c, &payload, &aad, |_pt, d| -> Result<Vec<u8>, ()> { got = d.to_vec(); Ok(vec![4]) });
             check!("C05,C06", got.clone(), structure(name, &[&slot, &aad]), format!("recipient try_create {} aad_len={}", name, la));
         }
+        }
+        if relevant("C04,C06,C02,C01") {
+        let mut got: Vec<u8> = vec![];
         let _ = CoseMacBuilder::new().protected(hdr.clone()).payload(payload.clone()).create_tag(&aad, |d| { got = d.to_vec(); vec![3] });
         check!("C04,C06", got.clone(), structure("MAC", &[&slot, &aad, &payload]), format!("Mac create aad_len={}", la));
         let _ = CoseMacBuilder::new().protected(hdr.clone()).payload(payload.clone()).try_create_tag(&aad, |d| -> Result<Vec<u8>, ()> { got = d.to_vec(); Ok(vec![3]) });
         check!("C04,C06", got.clone(), structure("MAC", &[&slot, &aad, &payload]), format!("Mac try_create aad_len={}", la));
         let _ = CoseMac0Builder::new().protected(hdr.clone()).payload(payload.clone()).create_tag(&aad, |d| { got = d.to_vec(); vec![3] });
         check!("C04,C06", got.clone(), structure("MAC0", &[&slot, &aad, &payload]), format!("Mac0 create aad_len={}", la));
+        }
+        if relevant("C03,C06,C02,C01") {
+        let mut got: Vec<u8> = vec![];
         let _ = CoseSign1Builder::new().protected(hdr.clone()).payload(payload.clone()).try_create_signature(&aad, |d| -> Result<Vec<u8>, ()> { got = d.to_vec(); Ok(vec![3]) });
         check!("C03,C06", got.clone(), structure("Signature1", &[&slot, &aad, &payload]), format!("Sign1 try_create aad_len={}", la));
         let _ = CoseSign1Builder::new().protected(hdr.clone()).create_detached_signature(&payload, &aad, |d| { got = d.to_vec(); vec![3] });
         check!("C03,C06", got.clone(), structure("Signature1", &[&slot, &aad, &payload]), format!("Sign1 create_detached aad_len={}", la));
         let _ = CoseSign1Builder::new().protected(hdr.clone()).try_create_detached_signature(&payload, &aad, |d| -> Result<Vec<u8>, ()> { got = d.to_vec(); Ok(vec![3]) });
         check!("C03,C06", got.clone(), structure("Signature1", &[&slot, &aad, &payload]), format!("Sign1 try_create_detached aad_len={}", la));
+        }
     }
     // documented refusals: the operation panics instead of handing the caller's function something else
     {
